@@ -177,26 +177,14 @@ def evaluate(case, d0, names, mline, iline, crash):
     if M[0] == "OUTOFFUEL":
         o.skipped = "diverges"
         return o
-    # explicit shape order on a model whose root is not block 0: proved to fault for every graph
-    if act == "order":
-        ids, rshapes, root = resolved_order(g0, names)
-        if order_applies(g0, names) and root is not None and root != 0:
-            if M[0] != "FAULT":
-                o.mismatch = {"case": case, "what": "model does not fault on SetShapeOrder with root != 0", "model": M[0][:200]}
-            elif crash is not None or iline is None:
-                o.known = ("C04-shapeorder-root-nonzero", "root is block %d of %d; %s" % (root, g0["n"], crash_summary(crash)))
-            else:
-                # no sanitizer report: the order must still be visible as a broken model
-                P = ss.split_line(iline)
-                e = ss.graph_errors(g0, ss.parse_dump(P["dumps"][1]), False) if len(P["dumps"]) > 1 else ["no dump"]
-                if e:
-                    o.known = ("C04-shapeorder-root-nonzero", "root is block %d; no crash but %s" % (root, e[0]))
-                else:
-                    o.mismatch = {"case": case, "what": "model faults (root != 0) but the implementation reordered correctly", "impl": iline[:300]}
-            o.nontrivial = True
-            return o
     if crash is not None or not iline:
         o.errors = ["implementation crashed: " + crash_summary(crash)]
+        o.nontrivial = True
+        if act == "order":
+            # the repaired defect: the counter seeded with the root's block id -> a store outside SetBlockOrder's vectors
+            ids, rshapes, root = resolved_order(g0, names)
+            if order_applies(g0, names) and root is not None and root != 0:
+                o.known = ("C04-shapeorder-root-nonzero", "root is block %d of %d; %s" % (root, g0["n"], crash_summary(crash)))
         return o
     P = ss.split_line(iline)
     I = P["dumps"]
@@ -241,9 +229,9 @@ def evaluate(case, d0, names, mline, iline, crash):
         ids, rshapes, root = resolved_order(g0, names)
         u0 = g0["blocks"][0]["uid"] if g0["blocks"] else None
         only_root = all(("uid %d " % u0) in x and ("children" in x or "lists child" in x) for x in e)
-        if root == 0 and order_applies(g0, names) and len(ids) == len(rshapes) and sorted(ids) != sorted(rshapes) and only_root and o.mismatch is None:
+        if root == 0 and order_applies(g0, names) and len(ids) == len(rshapes) and sorted(ids) != sorted(rshapes) and only_root:
+            # the repaired defect: an order that is not a permutation of the root's shape children was applied
             o.known = ("C04-shapeorder-bad-names", "ids %s vs root shape children %s: %s" % (ids, rshapes, e[0]))
-            return o
     o.errors = e
     return o
 
@@ -363,9 +351,17 @@ def run(tier, seed, replay=None):
         a = kv_of(c)["act"] + ("/" + c.split(" ")[0])
         acts[a] = acts.get(a, 0) + 1
         if o.known:
-            rep.known_finding(o.known[0], c + " :: " + o.known[1])
-            if o.known[0] not in {kf["id"] for kf in rep.known}:
-                rep.violation("defect not listed in known_findings.json: " + o.known[0], {"case": c, "family": "sorter", "detail": o.known[1]})
+            # recorded as "fixed": the same input class failing again is a violation (it would be a
+            # KNOWN-FINDING only while the entry had status "known")
+            if any(kf["id"] == o.known[0] for kf in rep.known):
+                rep.known_finding(o.known[0], c + " :: " + o.known[1])
+            else:
+                rep.violation("the repaired defect %s is back: %s" % (o.known[0], o.known[1][:200]), {"case": c, "family": "sorter", "detail": o.known[1], "before": d0})
+            if o.mismatch:
+                mism.append(o.mismatch)
+            if o.nontrivial:
+                nontriv.add(c)
+            continue
         if o.mismatch:
             mism.append(o.mismatch)
         if o.errors:
@@ -408,5 +404,5 @@ def run(tier, seed, replay=None):
         "exhaustive": False,
     })
     return rep.finish(cov, ["references are empty or in range (refs_in_range), no object is both a node and a shape (node_shape_excl), fewer than 2^32-1 blocks, the traversal terminates (result Ok: no cycle in SortCollision's child-before-parent recursion)",
-                            "SetShapeOrder: root is block 0 and the resolved names are a permutation of the root's shape children or differ in number (order_ok); outside: C04_shape_order_root_nonzero_faults and the two ..._refuted witnesses",
+                            "SetShapeOrder: no further hypothesis (any root position, any name list) after the two repairs C04-shapeorder-root-nonzero / C04-shapeorder-bad-names; std::is_permutation is modelled by its specification (true iff a rearrangement)",
                             "Optimize's bounding-sphere update and FinalizeData run before the first dump (outside the property)"])
